@@ -298,15 +298,17 @@ Definition continuity (ref est : list Q) (pth qth : Q) : res (Q * Q * Q * Q) :=
 (* ---------------------------------------------------------------- information_gain (exact skeleton) *)
 (* beat_error[n] of _get_entropy for the estimated beat x against the reference r0 :: rt (at least two beats);
    None = a non-finite value (division by a zero interval; np.histogram ignores nan).
-   NOTE the code's first test `if closest_beat == 0` is not chained to the second one with `elif`, so for the first
-   annotation the interval it sets is overwritten by the else-branch below; with a negative error that branch reads
-   reference_beats[closest_beat - 1] = reference_beats[-1], the LAST annotation. *)
+   The interval is half the inter-annotation interval next to the closest annotation: the first one when the first
+   annotation is closest, the last one when the last annotation is closest, otherwise the one on the side of the
+   beat (previous interval when the error is negative, next interval otherwise). *)
 Definition ig_error (x r0 : Q) (rt : list Q) : option Q :=
   let c := nearest x r0 rt in
   let err := x - c_val c in
   let interval :=
-    if (c_idx c =? length rt)%nat || qltb err 0
-    then (1#2) * (c_val c - match c_prev c with Some p => p | None => last rt r0 end)
+    if (c_idx c =? 0)%nat
+    then (1#2) * (match c_next c with Some nx => nx | None => c_val c end - c_val c)
+    else if (c_idx c =? length rt)%nat || qltb err 0
+    then (1#2) * (c_val c - match c_prev c with Some p => p | None => c_val c end)
     else (1#2) * (match c_next c with Some nx => nx | None => c_val c end - c_val c) in
   if qeqb interval 0 then None else Some ((1#2) * err / interval).
 (* np.mod(e + 0.5, -1) + 0.5, in (-1/2, 1/2] *)
